@@ -127,6 +127,8 @@ type gsim struct {
 	// viaCLI: the generation runs through the real `buf generate` command on the workspace written
 	// to disk (template file, -o, --path / --exclude-path, --include-imports / --include-wkt)
 	viaCLI bool
+	// viaImage: with viaCLI, the workspace is first built into this image file, which is then the input of generate
+	viaImage string
 	// overrides given on the command line (nil: none)
 	importsOverride *bool
 	wktOverride     *bool
@@ -370,7 +372,12 @@ func (m *gsim) drawPlugins() string {
 					p.includeImports, p.includeWKT = prev.includeImports, prev.includeWKT
 					if p.behaviour == "duplicate-spelling" {
 						// the same directory, spelled differently
-						p.out = tape.Pick(m.tp, "g.spelling", []string{"./" + prev.out, prev.out + "/", prev.out + "/."})
+						spellings := []string{"./" + prev.out, prev.out + "/", prev.out + "/."}
+						if !m.cwdMode {
+							// with a base out directory every out is joined below it: "/gen/a" and "gen/a" are one directory
+							spellings = append(spellings, "/"+prev.out, "/"+prev.out)
+						}
+						p.out = tape.Pick(m.tp, "g.spelling", spellings)
 						p.strategy = prev.strategy
 					} else {
 						// prev produces <out>/dupdir/shared.txt, this plugin <out>/dupdir + shared.txt: one path
@@ -601,11 +608,28 @@ func (m *gsim) generateViaCLI(ctx context.Context, template, baseOut string) err
 	if err := os.WriteFile(templatePath, []byte(template), 0o644); err != nil {
 		panic(err)
 	}
-	args := []string{"buf", "generate", root, "--template", templatePath}
+	env := map[string]string{"HOME": filepath.Join(m.env.Scratch, "cli", "home"), "BUF_CACHE_DIR": filepath.Join(m.env.Scratch, "cli", "cache"), "PATH": ""}
+	input := root
+	pathFlags := m.ws.PathFlags(root, dirs)
+	if m.viaImage != "" {
+		// first `buf build -o <image file>`, then generate from the image: other code reads the input
+		input = filepath.Join(m.env.Scratch, "cli", m.viaImage)
+		buildArgs := []string{"buf", "build", root, "-o", input}
+		for _, f := range pathFlags {
+			buildArgs = append(buildArgs, f[0], f[1])
+		}
+		pathFlags = nil
+		var bo, be bytes.Buffer
+		if err := appcmd.Run(ctx, app.NewContainer(env, strings.NewReader(""), &bo, &be, buildArgs...), bufcli.NewRootCommand("buf")); err != nil {
+			return fmt.Errorf("buf build -o %s: %w (stderr: %s)", m.viaImage, err, strings.ReplaceAll(be.String(), m.env.Scratch, "<scratch>"))
+		}
+		m.s.Probe("generated-from-an-image-file")
+	}
+	args := []string{"buf", "generate", input, "--template", templatePath}
 	if !m.cwdMode {
 		args = append(args, "-o", baseOut)
 	}
-	for _, f := range m.ws.PathFlags(root, dirs) {
+	for _, f := range pathFlags {
 		args = append(args, f[0], f[1])
 	}
 	if m.importsOverride != nil {
@@ -615,7 +639,6 @@ func (m *gsim) generateViaCLI(ctx context.Context, template, baseOut string) err
 		args = append(args, fmt.Sprintf("--include-wkt=%v", *m.wktOverride))
 	}
 	var stdout, stderr bytes.Buffer
-	env := map[string]string{"HOME": filepath.Join(m.env.Scratch, "cli", "home"), "BUF_CACHE_DIR": filepath.Join(m.env.Scratch, "cli", "cache"), "PATH": ""}
 	container := app.NewContainer(env, strings.NewReader(""), &stdout, &stderr, args...)
 	if err := appcmd.Run(ctx, container, bufcli.NewRootCommand("buf")); err != nil {
 		return fmt.Errorf("%w (stderr: %s)", err, strings.ReplaceAll(stderr.String(), m.env.Scratch, "<scratch>"))
@@ -647,6 +670,9 @@ func Run(tp *tape.Tape, env *engine.Env) *engine.Outcome {
 	// a relative and an absolute out can then be the same directory
 	m.cwdMode = tp.Draw("g.cwd", 3) == 2
 	m.viaCLI = m.ws.CLIUsable() && tp.Draw("g.cli", 4) == 3
+	if m.viaCLI {
+		m.viaImage = tape.Pick(tp, "g.viaimage", []string{"", "image.binpb", "", "image.binpb.gz", "image.json", "image.txtpb"})
+	}
 	for _, target := range []**bool{&m.importsOverride, &m.wktOverride} {
 		switch tp.Draw("g.override", 4) {
 		case 2:
